@@ -15,7 +15,7 @@ func init() {
 	register("C05", "Decided: per-clause lockstep of size and emitted elements, lane order, decimal hand-off, RESB flow, non-emitting statements, every operand clause contributes or diagnoses, ALIGNB address basis.",
 		ruleP7, ruleP7e, ruleF2, ruleN5, ruleP2b, ruleP8, ruleW3, ruleE10, ruleF6, ruleO3, ruleT7, ruleT7h, ruleS5s, ruleE1, ruleE1b, ruleE3, ruleE3s)
 	register("C06", "Decided: precedence layering of the grammar, operator table of the evaluator, literal bases. Not decided: 64-bit overflow semantics.",
-		ruleT7, ruleT7b, ruleT10Expr, ruleG2, ruleE3, ruleE3s, ruleR6, ruleI1t, ruleI1, ruleK6, ruleZ3b, ruleD13z, ruleT7h, ruleE10, ruleO6)
+		ruleT7, ruleT7b, ruleT10Expr, ruleG2, ruleE3, ruleE3s, ruleR6, ruleI1t, ruleI1, ruleK6, ruleZ3b, ruleD13z, ruleT7h, ruleE10, ruleO6, ruleG6p)
 	register("C07", "Decided: every handler return emits, delegates or diagnoses at >= warning (level decided from colog's own table plus the CLI's AddHeader calls); Emit failures are never lost; data-directive clauses; code-generation handlers.",
 		ruleT11, ruleE7, ruleP2, ruleP2g, ruleP2b, ruleP2c, ruleU7, ruleT4d, ruleM7, ruleE7d, ruleP7, ruleD13z, ruleE7e, ruleT6, ruleL19)
 	register("C08", "Decided: record layouts and constants, capture-then-write ordering, symbol/aux counts, string table. Not decided: acceptance by an independent COFF reader.",
